@@ -232,3 +232,9 @@ Definition liveMPDdrm (drmSet preEncrypted : bool) : res unit :=
 (** [encryptFrags] leaves a track without encryption data (pre-encrypted, subtitles) alone
     (repair fb86caa). *)
 Definition encryptsTrack (drmSet hasEncData : bool) : bool := drmSet && hasEncData.
+
+(** [RepData.readInit]: the protection data of a representation ([addEncryption]) is prepared
+    whenever its codec can be encrypted ([prepareForEncryption]: avc*, mp4a.40*), on both load
+    paths - scanned from the files (media timescale still unknown) and restored from the stored
+    representation metadata (timescale already set, the function returns early after this step). *)
+Definition readInitPrepares (encryptableCodec timescaleKnown : bool) : bool := encryptableCodec.
